@@ -51,6 +51,17 @@ pub enum Spec {
     SwapFoci(u8, (u8, u64)),
     SwapGainStm(u8, (u8, u64)),
     FirmInfo(u8),
+    // ---- additive (coverage review C01 gap 3 / C17 gap 3): the value depends on the device
+    /// ForceFan with bit `dev.idx()` of the mask
+    FanMask(u8),
+    /// ReadsFPGAState with bit `dev.idx()` of the mask
+    ReadsMask(u8),
+    /// CpuGPIOOutputs: device d gets `v[d % len]` (each a combination of 0x20 / 0x80)
+    CpuGpioDev(Vec<u8>),
+    /// EmulateGPIOIn: device d gets the flags `v[d % len]`
+    GpioInDev(Vec<u8>),
+    /// GPIOOutputs: device d, pin k gets `v[(k + d) % 4]`
+    DebugDev([u64; 4]),
 }
 
 pub fn tr_str(t: &Tr) -> String {
@@ -93,6 +104,17 @@ impl Spec {
             Spec::SwapFoci(s, t) => format!("swapfoci {s} {}", tr_str(&Some(*t))),
             Spec::SwapGainStm(s, t) => format!("swapgainstm {s} {}", tr_str(&Some(*t))),
             Spec::FirmInfo(t) => format!("firminfo {t}"),
+            Spec::FanMask(m) => format!("fanmask {m}"),
+            Spec::ReadsMask(m) => format!("readsmask {m}"),
+            Spec::CpuGpioDev(v) => {
+                assert!(!v.is_empty() && v.iter().all(|x| x & !0xA0 == 0), "cpugpiodev values must be combinations of 0x20 and 0x80");
+                format!("cpugpiodev {}", v.iter().map(|x| x.to_string()).collect::<Vec<_>>().join(":"))
+            }
+            Spec::GpioInDev(v) => {
+                assert!(!v.is_empty());
+                format!("gpioindev {}", v.iter().map(|x| x.to_string()).collect::<Vec<_>>().join(":"))
+            }
+            Spec::DebugDev(v) => format!("debugdev {:x} {:x} {:x} {:x}", v[0], v[1], v[2], v[3]),
         }
     }
     pub fn kind(&self) -> &'static str {
@@ -119,6 +141,11 @@ impl Spec {
             Spec::SwapFoci(..) => "swapfoci",
             Spec::SwapGainStm(..) => "swapgainstm",
             Spec::FirmInfo(_) => "firminfo",
+            Spec::FanMask(_) => "fanmask",
+            Spec::ReadsMask(_) => "readsmask",
+            Spec::CpuGpioDev(_) => "cpugpiodev",
+            Spec::GpioInDev(_) => "gpioindev",
+            Spec::DebugDev(_) => "debugdev",
         }
     }
 }
@@ -185,6 +212,22 @@ pub fn debug_type(raw: u64) -> GPIOOutputType<'static> {
     }
 }
 
+/// as `debug_type`, plus the two variants whose value is not a plain integer of the user's (coverage review C01 gap 2):
+/// `0x60` SysTimeEq — the raw value is `sys_time / 25 us`; the time handed to the SDK lies *inside* that 25 us
+/// window, not on its edge — and `0xE0` PwmOut(&dev[value]).
+pub fn debug_type_dev<'a>(raw: u64, dev: &'a Device) -> GPIOOutputType<'a> {
+    let tag = (raw >> 56) as u8;
+    let value = raw & 0x00FF_FFFF_FFFF_FFFF;
+    match tag {
+        0x60 => {
+            assert!(value < 1 << 48, "SysTimeEq value must be encodable");
+            GPIOOutputType::SysTimeEq(DcSysTime::ZERO + Duration::from_nanos(value * 25_000 + (value.wrapping_mul(7919) % 25_000)))
+        }
+        0xE0 => GPIOOutputType::PwmOut(&dev[value as usize]),
+        _ => debug_type(raw),
+    }
+}
+
 /// everything needed to build the datagram of a spec; `V::visit` receives the concrete datagram type
 pub trait DgVisitor {
     type R;
@@ -217,46 +260,48 @@ macro_rules! foci_n {
     }};
 }
 
-pub fn build<V: DgVisitor>(spec: &Spec, v: V) -> V::R {
-    match spec.clone() {
-        Spec::Clear => v.visit(Clear::new()),
-        Spec::Sync => v.visit(Synchronize::new()),
-        Spec::Fan(b) => v.visit(ForceFan::new(move |_| b)),
-        Spec::Reads(b) => v.visit(ReadsFPGAState::new(move |_| b)),
-        Spec::CpuGpio(x) => v.visit(CpuGPIOOutputs::new(move |_| CpuGPIOPort::new(x & 0x20 != 0, x & 0x80 != 0))),
-        Spec::GpioIn(f) => v.visit(EmulateGPIOIn::new(move |_| {
+/// the one place where a spec becomes a real SDK datagram (shared by `build` and `build1`)
+macro_rules! build_body {
+    ($spec:expr, $v:expr) => {
+    match $spec.clone() {
+        Spec::Clear => $v.visit(Clear::new()),
+        Spec::Sync => $v.visit(Synchronize::new()),
+        Spec::Fan(b) => $v.visit(ForceFan::new(move |_| b)),
+        Spec::Reads(b) => $v.visit(ReadsFPGAState::new(move |_| b)),
+        Spec::CpuGpio(x) => $v.visit(CpuGPIOOutputs::new(move |_| CpuGPIOPort::new(x & 0x20 != 0, x & 0x80 != 0))),
+        Spec::GpioIn(f) => $v.visit(EmulateGPIOIn::new(move |_| {
             move |g: GPIOIn| (f >> (g as u8)) & 1 == 1
         })),
-        Spec::Debug(vals) => v.visit(GPIOOutputs::new(move |_, g: GPIOOut| debug_type(vals[g as usize]))),
-        Spec::PhaseCorr(seed) => v.visit(PhaseCorrection::new(move |dev| {
+        Spec::Debug(vals) => $v.visit(GPIOOutputs::new(move |dev, g: GPIOOut| debug_type_dev(vals[g as usize], dev))),
+        Spec::PhaseCorr(seed) => $v.visit(PhaseCorrection::new(move |dev| {
             let b = pr_bytes(seed.wrapping_add(1000003 * dev.idx() as u64), NUM_TR);
             move |tr: &Transducer| Phase(b[tr.idx()])
         })),
-        Spec::Pwe(seed) => v.visit(PulseWidthEncoder::new(move |_| {
+        Spec::Pwe(seed) => $v.visit(PulseWidthEncoder::new(move |_| {
             let b = pr_bytes(seed, 512);
             move |i: EmitIntensity| {
                 let k = i.0 as usize;
                 PulseWidth::new((b[2 * k] as u16 | ((b[2 * k + 1] as u16) << 8)) % 512).unwrap()
             }
         })),
-        Spec::PweDefault => v.visit(PulseWidthEncoder::default()),
-        Spec::ModRaw { seg, tr, rep, div, bytes } => v.visit(WithLoopBehavior::new(
+        Spec::PweDefault => $v.visit(PulseWidthEncoder::default()),
+        Spec::ModRaw { seg, tr, rep, div, bytes } => $v.visit(WithLoopBehavior::new(
             autd3::modulation::Custom::new(bytes, to_div(div)),
             to_loop(rep),
             to_segment(seg),
             tr.map(to_transition),
         )),
-        Spec::SilSteps(i, p, strict) => v.visit(Silencer::new(FixedCompletionSteps {
+        Spec::SilSteps(i, p, strict) => $v.visit(Silencer::new(FixedCompletionSteps {
             intensity: NonZeroU16::new(i).unwrap(),
             phase: NonZeroU16::new(p).unwrap(),
             strict_mode: strict,
         })),
-        Spec::SilRate(i, p) => v.visit(Silencer::new(FixedUpdateRate {
+        Spec::SilRate(i, p) => $v.visit(Silencer::new(FixedUpdateRate {
             intensity: NonZeroU16::new(i).unwrap(),
             phase: NonZeroU16::new(p).unwrap(),
         })),
-        Spec::Gain { seg, tr, seed } => v.visit(WithSegment::new(custom_gain(seed), to_segment(seg), tr.map(to_transition))),
-        Spec::Mod { seg, tr, rep, div, n, seed } => v.visit(WithLoopBehavior::new(
+        Spec::Gain { seg, tr, seed } => $v.visit(WithSegment::new(custom_gain(seed), to_segment(seg), tr.map(to_transition))),
+        Spec::Mod { seg, tr, rep, div, n, seed } => $v.visit(WithLoopBehavior::new(
             autd3::modulation::Custom::new(pr_bytes(seed, n), to_div(div)),
             to_loop(rep),
             to_segment(seg),
@@ -266,14 +311,14 @@ pub fn build<V: DgVisitor>(spec: &Spec, v: V) -> V::R {
             let ints = foci_ints(seed, n, size);
             let (d, r, s, t) = (to_div(div), to_loop(rep), to_segment(seg), tr.map(to_transition));
             match n {
-                1 => foci_n!(1, v, ints, size, d, r, s, t),
-                2 => foci_n!(2, v, ints, size, d, r, s, t),
-                3 => foci_n!(3, v, ints, size, d, r, s, t),
-                4 => foci_n!(4, v, ints, size, d, r, s, t),
-                5 => foci_n!(5, v, ints, size, d, r, s, t),
-                6 => foci_n!(6, v, ints, size, d, r, s, t),
-                7 => foci_n!(7, v, ints, size, d, r, s, t),
-                _ => foci_n!(8, v, ints, size, d, r, s, t),
+                1 => foci_n!(1, $v, ints, size, d, r, s, t),
+                2 => foci_n!(2, $v, ints, size, d, r, s, t),
+                3 => foci_n!(3, $v, ints, size, d, r, s, t),
+                4 => foci_n!(4, $v, ints, size, d, r, s, t),
+                5 => foci_n!(5, $v, ints, size, d, r, s, t),
+                6 => foci_n!(6, $v, ints, size, d, r, s, t),
+                7 => foci_n!(7, $v, ints, size, d, r, s, t),
+                _ => foci_n!(8, $v, ints, size, d, r, s, t),
             }
         }
         Spec::GainStm { mode, seg, tr, rep, div, size, seed } => {
@@ -283,18 +328,18 @@ pub fn build<V: DgVisitor>(spec: &Spec, v: V) -> V::R {
                 1 => GainSTMMode::PhaseFull,
                 _ => GainSTMMode::PhaseHalf,
             };
-            v.visit(WithLoopBehavior::new(
+            $v.visit(WithLoopBehavior::new(
                 GainSTM::new(gains, to_div(div), GainSTMOption { mode }),
                 to_loop(rep),
                 to_segment(seg),
                 tr.map(to_transition),
             ))
         }
-        Spec::SwapGain(s, t) => v.visit(SwapSegment::Gain(to_segment(s), to_transition(t))),
-        Spec::SwapMod(s, t) => v.visit(SwapSegment::Modulation(to_segment(s), to_transition(t))),
-        Spec::SwapFoci(s, t) => v.visit(SwapSegment::FociSTM(to_segment(s), to_transition(t))),
-        Spec::SwapGainStm(s, t) => v.visit(SwapSegment::GainSTM(to_segment(s), to_transition(t))),
-        Spec::FirmInfo(t) => v.visit(match t {
+        Spec::SwapGain(s, t) => $v.visit(SwapSegment::Gain(to_segment(s), to_transition(t))),
+        Spec::SwapMod(s, t) => $v.visit(SwapSegment::Modulation(to_segment(s), to_transition(t))),
+        Spec::SwapFoci(s, t) => $v.visit(SwapSegment::FociSTM(to_segment(s), to_transition(t))),
+        Spec::SwapGainStm(s, t) => $v.visit(SwapSegment::GainSTM(to_segment(s), to_transition(t))),
+        Spec::FirmInfo(t) => $v.visit(match t {
             1 => FirmwareVersionType::CPUMajor,
             2 => FirmwareVersionType::CPUMinor,
             3 => FirmwareVersionType::FPGAMajor,
@@ -302,7 +347,41 @@ pub fn build<V: DgVisitor>(spec: &Spec, v: V) -> V::R {
             5 => FirmwareVersionType::FPGAFunctions,
             _ => FirmwareVersionType::Clear,
         }),
+        Spec::FanMask(m) => $v.visit(ForceFan::new(move |dev| (m >> dev.idx()) & 1 == 1)),
+        Spec::ReadsMask(m) => $v.visit(ReadsFPGAState::new(move |dev| (m >> dev.idx()) & 1 == 1)),
+        Spec::CpuGpioDev(xs) => $v.visit(CpuGPIOOutputs::new(move |dev| {
+            let x = xs[dev.idx() % xs.len()];
+            CpuGPIOPort::new(x & 0x20 != 0, x & 0x80 != 0)
+        })),
+        Spec::GpioInDev(fs) => $v.visit(EmulateGPIOIn::new(move |dev| {
+            let f = fs[dev.idx() % fs.len()];
+            move |g: GPIOIn| (f >> (g as u8)) & 1 == 1
+        })),
+        Spec::DebugDev(vals) => $v.visit(GPIOOutputs::new(move |dev, g: GPIOOut| debug_type_dev(vals[(g as usize + dev.idx()) % 4], dev))),
     }
+    };
+}
+
+pub fn build<V: DgVisitor>(spec: &Spec, v: V) -> V::R {
+    build_body!(spec, v)
+}
+
+/// as `DgVisitor`, but the visitor also learns that the datagram is a *single* one (`O2 = NullOp`, true for every
+/// spec): with that the real tuple type `(A, B)` — `impl Datagram for (D1, D2)` + `CombinedOperationGenerator` —
+/// can be named (coverage review C03 gap 1)
+pub trait DgVisitor1 {
+    type R;
+    fn visit<D>(self, d: D) -> Self::R
+    where
+        D: Datagram,
+        D::Error: std::error::Error,
+        AUTDDriverError: From<D::Error>,
+        D::G: OperationGenerator<O2 = autd3_core::datagram::NullOp>,
+        AUTDDriverError: From<<<D::G as OperationGenerator>::O1 as Operation>::Error>;
+}
+
+pub fn build1<V: DgVisitor1>(spec: &Spec, v: V) -> V::R {
+    build_body!(spec, v)
 }
 
 type TrFn = Box<dyn Fn(&Transducer) -> Drive + Send + Sync + 'static>;
@@ -411,6 +490,52 @@ where
         // (the tuple impl itself needs `D2::G::O2 = NullOp` as a *type* equality, which a generic
         // visitor cannot name; the real tuple type is exercised by the typed cases of `fw_c03`)
         self.w.send_pair(self.a, b, self.max_frames)
+    }
+}
+
+struct TupV1<'a> {
+    w: &'a mut World,
+    b: &'a Spec,
+    max_frames: usize,
+}
+impl DgVisitor1 for TupV1<'_> {
+    type R = SendOutcome;
+    fn visit<A>(self, a: A) -> SendOutcome
+    where
+        A: Datagram,
+        A::Error: std::error::Error,
+        AUTDDriverError: From<A::Error>,
+        A::G: OperationGenerator<O2 = autd3_core::datagram::NullOp>,
+        AUTDDriverError: From<<<A::G as OperationGenerator>::O1 as Operation>::Error>,
+    {
+        build1(self.b, TupV2 { w: self.w, a, max_frames: self.max_frames })
+    }
+}
+struct TupV2<'a, A> {
+    w: &'a mut World,
+    a: A,
+    max_frames: usize,
+}
+impl<A> DgVisitor1 for TupV2<'_, A>
+where
+    A: Datagram,
+    A::Error: std::error::Error,
+    AUTDDriverError: From<A::Error>,
+    A::G: OperationGenerator<O2 = autd3_core::datagram::NullOp>,
+    AUTDDriverError: From<<<A::G as OperationGenerator>::O1 as Operation>::Error>,
+{
+    type R = SendOutcome;
+    fn visit<B>(self, b: B) -> SendOutcome
+    where
+        B: Datagram,
+        B::Error: std::error::Error,
+        AUTDDriverError: From<B::Error>,
+        B::G: OperationGenerator<O2 = autd3_core::datagram::NullOp>,
+        AUTDDriverError: From<<<B::G as OperationGenerator>::O1 as Operation>::Error>,
+    {
+        // the REAL tuple datagram: `impl Datagram for (D1, D2)` (operation_generator, error order) and
+        // `CombinedOperationGenerator::generate`, through the ordinary single-datagram send loop
+        self.w.send_dg((self.a, b), self.max_frames)
     }
 }
 
@@ -540,6 +665,14 @@ impl World {
         self.apply_sound_speed(a);
         self.apply_sound_speed(b);
         build(a, PairV1 { w: self, b, max_frames })
+    }
+
+    /// `(a, b)` as the real tuple type (same observable contract as `send_pair_spec`, which re-states the tuple at
+    /// operation level)
+    pub fn send_tuple_spec(&mut self, a: &Spec, b: &Spec, max_frames: usize) -> SendOutcome {
+        self.apply_sound_speed(a);
+        self.apply_sound_speed(b);
+        build1(a, TupV1 { w: self, b, max_frames })
     }
 
     pub fn clk(&mut self, t: u64) {
@@ -798,6 +931,19 @@ impl<'o> Session<'o> {
         });
         self.emit(op, r)
     }
+    /// the same op line as `pair`, answered by the real tuple type `(A, B)`
+    pub fn pair_real(&mut self, a: &Spec, b: &Spec) -> String {
+        if self.dead {
+            return "dead".into();
+        }
+        let op = format!("send pair {} | {}", a.text(), b.text());
+        let w = &mut self.w;
+        let r = guarded(|| {
+            let o = w.send_tuple_spec(a, b, usize::MAX);
+            w.answer(&o)
+        });
+        self.emit(op, r)
+    }
     pub fn clk(&mut self, t: u64) -> String {
         if self.dead {
             return "dead".into();
@@ -874,11 +1020,11 @@ pub fn touches(s: &Spec) -> Vec<Res> {
     match s {
         Spec::Clear => ALL_RES.to_vec(),
         Spec::Sync => vec![Res::Sync],
-        Spec::Fan(_) => vec![Res::Fan],
-        Spec::GpioIn(_) => vec![Res::GpioIn],
-        Spec::Reads(_) | Spec::FirmInfo(_) => vec![Res::Reads],
-        Spec::CpuGpio(_) => vec![Res::PortA],
-        Spec::Debug(_) => vec![Res::Debug],
+        Spec::Fan(_) | Spec::FanMask(_) => vec![Res::Fan],
+        Spec::GpioIn(_) | Spec::GpioInDev(_) => vec![Res::GpioIn],
+        Spec::Reads(_) | Spec::FirmInfo(_) | Spec::ReadsMask(_) => vec![Res::Reads],
+        Spec::CpuGpio(_) | Spec::CpuGpioDev(_) => vec![Res::PortA],
+        Spec::Debug(_) | Spec::DebugDev(_) => vec![Res::Debug],
         Spec::PhaseCorr(_) => vec![Res::PhaseCorr],
         Spec::Pwe(_) | Spec::PweDefault => vec![Res::Pwe],
         Spec::SilSteps(..) | Spec::SilRate(..) => vec![Res::Silencer],
